@@ -195,7 +195,13 @@ def handler (fn : String) : Option Handler :=
       model := fun _ => some "-"
       oracle := fun a o => match run (plist pv2) a with
         | some input => (match o with
-          | "panic" :: _ => "fail panic"
+          | "panic" :: _ =>
+            -- `from_convex_hull` goes through `convex_hull2`, whose `assert!`s fire on fewer than 2 / all-coincident points
+            -- (the known finding of `hull2`); any other panic is a plain failure
+            let P := input.map q2
+            (match P with
+            | a :: rest => if rest.all (fun b => b.x == a.x && b.y == a.y) then "fail panic-on-degenerate-input" else "fail panic"
+            | [] => "fail panic-on-degenerate-input")
           | ["none"] =>
             -- None is legitimate only for degenerate (collinear) input
             let P := input.map q2
